@@ -321,8 +321,12 @@ def check_union(ctx, run, fn, name, tyv, members, non_zero=None):
             try:
                 size, align, sl, el, it = run_calc(ctx, tyv, 64, order=rank_order(rank), non_zero=non_zero)
             except (Panic, CannotEstablish) as c:
-                run.finding("calc_single", "union:%s:cannot-establish" % name, fn.file, fn.ln,
-                            "cannot establish the layout of %s: %s" % (name, getattr(c, "what", c)))
+                what = str(getattr(c, "what", c))
+                extra = ""
+                if "stride(" in what:
+                    extra = (" - the arm consults a member's STRIDE: a sum type's layout is determined by its members' sizes and alignments only (tag right after the largest "
+                             "payload); a member whose size is not a multiple of its alignment has stride > size, so the tag moves away from the payload and the type grows")
+                run.finding("calc_single", "union:%s:cannot-establish" % name, fn.file, fn.ln, "cannot establish the layout of %s: %s%s" % (name, what, extra))
                 return
             desc = "sizes %s aligns %s" % (so, ao)
             skeys = [0] + [atom_key(s) for s in sizes]
